@@ -58,7 +58,13 @@ impl TypeScheme {
             TypeScheme::Quantified(n_gen, _) => {
                 // TODO: is this a good idea? we don't take care of name clashes here
                 let type_parameters = match type_parameters {
-                    Some(tp) if tp.len() == *n_gen => tp.map(TypeVariable::new).collect(),
+                    Some(tp) if tp.len() == *n_gen => {
+                        // The quantified variables are numbered in the sorted order of their
+                        // names (see `generalize`), not in the order of declaration
+                        let mut type_parameters: Vec<_> = tp.map(TypeVariable::new).collect();
+                        type_parameters.sort();
+                        type_parameters
+                    }
                     _ => {
                         if *n_gen <= 26 {
                             (0..*n_gen)
